@@ -1,8 +1,9 @@
 (* C18, result half for parentheses, end to end for brackets around a whole operator
    expression: the parser's trees of `toks` and `( toks )` (images of the index-carrying
-   trees of C02) are related by [grel] -- one Group node on top, node indices renamed --
-   so the builder model emits the same instruction stream (data operands compared by
-   position only), the same jump table and reports the same entry. *)
+   trees of C02) are related by [grel] -- one Group node on top, node indices renamed, every
+   node made from the same source token -- so the builder model emits the same instruction
+   stream (every data operand made from the same source token), the same jump table and
+   reports the same entry. *)
 From Coq Require Import List Arith Bool NArith Lia.
 From GV Require Import Base.Result Gen.TokenTypes Gen.Defs Gen.Instr Model.Parser Model.BuilderWL Model.Compile
   Spec.RefTable Spec.Pratt Spec.Chains Spec.Layout
@@ -11,72 +12,118 @@ From GV Require Import Base.Result Gen.TokenTypes Gen.Defs Gen.Instr Model.Parse
   Proofs.C18.ViaPratt Proofs.C18.GroupSim.
 Import ListNotations.
 
-Definition zlab (_ : nat) : nat := 0.
-(* an instruction with its data operand (a parse-node index in the model) blanked *)
-Definition erase_data (i : instr) : instr := ren zlab i.
+(* the source token a parse node was made from: its index in the token list as given
+   ([n_tok] counts from the first token that trim_tokens keeps) *)
+Definition tokl (ns : list pnode) (ix : nat) : nat :=
+  match nth_error ns ix with
+  | Some n => match n_tok n with Some k => k | None => 0 end
+  | None => 0
+  end.
+Definition src_tok (toks : list token_type) (ns : list pnode) (ix : nat) : nat :=
+  tokl ns ix + fst (trim_tokens toks).
 
-Lemma untok_shift_rtree a : forall t, untok (shift_rtree a t) = untok t.
+Lemma tokl_at ns i n k : nth_error ns i = Some n -> n_tok n = Some k -> tokl ns i = k.
+Proof. intros H1 H2. unfold tokl. rewrite H1, H2. reflexivity. Qed.
+
+Lemma shift_shift a b : forall t, shift_rtree a (shift_rtree b t) = shift_rtree (b + a) t.
 Proof.
-  induction t as [d k|d k x IH|d k x IH|d k l IHl r IHr|b k x IH]; cbn [shift_rtree untok]; rewrite ?IH, ?IHl, ?IHr; try reflexivity.
-  destruct k; reflexivity.
+  induction t as [d k|d k x IH|d k x IH|d k l IHl r IHr|bk k x IH]; cbn [shift_rtree]; rewrite ?IH, ?IHl, ?IHr, ?Nat.add_assoc; try reflexivity.
+  destruct k; cbn [option_map]; rewrite ?Nat.add_assoc; reflexivity.
 Qed.
 
-Lemma erase_grel : forall A B ctx lo cond, wfd ctx A -> wfd ctx B -> untok (erase A) = untok (erase B) ->
-  grel lit_all lit_all zlab zlab lo cond (img A) (img B).
+Lemma ren_ext g h l : (forall i, g i = h i) -> map (ren g) l = map (ren h) l.
 Proof.
-  induction A as [i d k|i d k a IH|i d k a IH|i d k l IHl r IHr|b i k a IH];
-    intros [i0 d0 k0|i0 d0 k0 a0|i0 d0 k0 a0|i0 d0 k0 l0 r0|b0 i0 k0 a0] ctx lo cond WA WB H;
-    cbn [erase untok] in H; try discriminate H; cbn [img]; cbn [wfd] in WA, WB.
-  - injection H as H. rewrite WA, WB, H. apply grel_node_intro; try reflexivity; exact I.
-  - injection H as -> H. apply grel_node_intro; try reflexivity; try exact I; cbn [orel]; eapply IH; eassumption.
-  - injection H as -> H. apply grel_node_intro; try reflexivity; try exact I; cbn [orel]; eapply IH; eassumption.
-  - injection H as -> _ Hl Hr. destruct WA as [WA1 WA2], WB as [WB1 WB2].
-    apply grel_node_intro; try reflexivity; cbn [orel]; [eapply IHl|eapply IHr]; eassumption.
-  - injection H as -> H. apply grel_node_intro; try reflexivity; try exact I; cbn [orel]; eapply IH; eassumption.
+  intros E. induction l as [|[i [|n|n|n]] l IH]; cbn [map]; rewrite ?IH; try reflexivity.
+  unfold ren. cbn. rewrite E. reflexivity.
 Qed.
+
+Section Rel.
+Variables ns' ns : list pnode.
+Variables lit' lit : nat -> bool.
+Variables a b : nat.
+Hypothesis Hlit : forall i' i, tokl ns' i' + a = tokl ns i + b -> lit' i' = lit i.
+
+Lemma erase_grel : forall A B p' p ctx lo cond,
+  denotes ns' p' A -> denotes ns p B -> wfd ctx A -> wfd ctx B ->
+  shift_rtree a (erase A) = shift_rtree b (erase B) ->
+  grel lit' lit (fun i => tokl ns' i + a) (fun i => tokl ns i + b) lo cond (img A) (img B).
+Proof.
+  induction A as [i d k|i d k x IH|i d k x IH|i d k l IHl r IHr|bk i k x IH];
+    intros [i0 d0 k0|i0 d0 k0 x0|i0 d0 k0 x0|i0 d0 k0 l0 r0|bk0 i0 k0 x0] p' p ctx lo cond DA DB WA WB H;
+    cbn [erase shift_rtree] in H; try discriminate H; cbn [img]; cbn [wfd] in WA, WB; cbn [denotes] in DA, DB;
+    destruct DA as (n' & Hn' & DA); destruct DB as (n & Hn & DB).
+  - injection H as H Hk. destruct DA as (_ & _ & _ & _ & _ & _ & Ht'). destruct DB as (_ & _ & _ & _ & _ & _ & Ht).
+    assert (E : tokl ns' i + a = tokl ns i0 + b) by (rewrite (tokl_at _ _ _ _ Hn' Ht'), (tokl_at _ _ _ _ Hn Ht); exact Hk).
+    rewrite WA, WB, H. apply grel_node_intro; try exact I; intros _; [exact E|apply Hlit; exact E].
+  - injection H as -> Hk H. destruct DA as (_ & _ & _ & _ & _ & Ht' & DA). destruct DB as (_ & _ & _ & _ & _ & Ht & DB).
+    assert (E : tokl ns' i + a = tokl ns i0 + b) by (rewrite (tokl_at _ _ _ _ Hn' Ht'), (tokl_at _ _ _ _ Hn Ht); exact Hk).
+    apply grel_node_intro; try exact I; try (intros _; [exact E|apply Hlit; exact E]); try (intros _; exact E); try (intros _; apply Hlit; exact E).
+    cbn [orel]. eapply IH; eassumption.
+  - injection H as -> Hk H. destruct DA as (_ & _ & _ & _ & _ & Ht' & DA). destruct DB as (_ & _ & _ & _ & _ & Ht & DB).
+    assert (E : tokl ns' i + a = tokl ns i0 + b) by (rewrite (tokl_at _ _ _ _ Hn' Ht'), (tokl_at _ _ _ _ Hn Ht); exact Hk).
+    apply grel_node_intro; try exact I; try (intros _; exact E); try (intros _; apply Hlit; exact E).
+    cbn [orel]. eapply IH; eassumption.
+  - injection H as -> Hk Hl Hr. destruct WA as [WA1 WA2], WB as [WB1 WB2].
+    destruct DA as (SA & _ & _ & _ & DAl & DAr). destruct DB as (SB & _ & _ & _ & DBl & DBr).
+    assert (E : uses_data d0 = true -> tokl ns' i + a = tokl ns i0 + b).
+    { intros Hu. destruct SA as (_ & [(_ & tk' & -> & Ht')|[(_ & -> & _)|(_ & tk' & -> & Ht')]]); try (vm_compute in Hu; discriminate Hu);
+        destruct SB as (_ & [(_ & tk & -> & Ht)|[(_ & _ & ->)|(_ & tk & -> & Ht)]]); cbn [option_map] in Hk; try discriminate Hk;
+        injection Hk as Hk; rewrite (tokl_at _ _ _ _ Hn' Ht'), (tokl_at _ _ _ _ Hn Ht); exact Hk. }
+    apply grel_node_intro; [exact E|intros Hu; apply Hlit, E, Hu| |]; cbn [orel]; [eapply IHl|eapply IHr]; eassumption.
+  - injection H as -> Hk H. destruct DA as (_ & _ & _ & _ & _ & Ht' & DA). destruct DB as (_ & _ & _ & _ & _ & Ht & DB).
+    assert (E : tokl ns' i + a = tokl ns i0 + b) by (rewrite (tokl_at _ _ _ _ Hn' Ht'), (tokl_at _ _ _ _ Hn Ht); exact Hk).
+    apply grel_node_intro; try exact I; try (intros _; exact E); try (intros _; apply Hlit; exact E).
+    cbn [orel]. eapply IH; eassumption.
+Qed.
+End Rel.
 
 Lemma pratt_parse_wfd toks T : pratt toks = Some T ->
   exists Tn ns, parse toks = Ok (nid Tn, ns) /\ Compile.tree_of ns (nid Tn) = Some (img Tn) /\
-                wfd false Tn /\ untok (erase Tn) = untok T.
+                wfd false Tn /\ denotes ns None Tn /\ T = shift_rtree (fst (trim_tokens toks)) (erase Tn).
 Proof.
   intros H. destruct (pratt_parse toks T H) as (Tn & ns & its & Hits & _ & Hins & Hp & DT & OT & _ & _ & E).
-  exists Tn, ns. split; [exact Hp|]. split; [eapply denotes_tree_of; eauto|]. split.
-  - eapply spine_insert_wfd; [|exact Hins]. eapply items_of_sane; exact Hits.
-  - rewrite E, untok_shift_rtree. reflexivity.
+  exists Tn, ns. split; [exact Hp|]. split; [eapply denotes_tree_of; eauto|]. split; [|split; assumption].
+  eapply spine_insert_wfd; [|exact Hins]. eapply items_of_sane; exact Hits.
 Qed.
 
-(* both token lists are accepted, and whenever the builder model succeeds on both (into the
-   same data object, any fuel) it has emitted the same instructions -- operation, jump /
-   length / expression operands; data operands blanked -- the same jump table and reports
-   the same entry *)
-Definition same_code_of_builds (toks toks' : list token_type) : Prop :=
+(* [sigma k]: where the k-th token of [toks] stands in [toks'].  Both token lists are
+   accepted, and whenever the builder model succeeds on both -- into the same data object,
+   with any fuel, with literal oracles that agree on nodes made from corresponding tokens --
+   it has emitted the same instructions (operation; jump, length and expression operands;
+   every data operand made from the corresponding source token, hence from the same text),
+   the same jump table, and reports the same entry: every machine run on the two is the same *)
+Definition same_code_of_builds (sigma : nat -> nat) (toks toks' : list token_type) : Prop :=
   exists root nodes root' nodes',
     parse toks = Ok (root, nodes) /\
     parse toks' = Ok (root', nodes') /\
-    forall init fuel fuel' r r',
-      build nodes init lit_all fuel root = Ok r ->
-      build nodes' init lit_all fuel' root' = Ok r' ->
-      map erase_data (instrs (fst r')) = map erase_data (instrs (fst r)) /\
+    forall init lit lit' fuel fuel' r r',
+      (forall i' i, src_tok toks' nodes' i' = sigma (src_tok toks nodes i) -> lit' i' = lit i) ->
+      build nodes init lit fuel root = Ok r ->
+      build nodes' init lit' fuel' root' = Ok r' ->
+      map (ren (src_tok toks' nodes')) (instrs (fst r')) = map (ren (fun i => sigma (src_tok toks nodes i))) (instrs (fst r)) /\
       jumps (fst r') = jumps (fst r) /\ snd r' = snd r.
 
 Theorem parens_whole_same_code (toks : list token_type) (T : rtree) :
   no_separators toks = true -> pratt toks = Some T ->
-  same_code_of_builds toks (TT_StartGroup :: toks ++ [TT_EndGroup]).
+  same_code_of_builds S toks (TT_StartGroup :: toks ++ [TT_EndGroup]).
 Proof.
   unfold same_code_of_builds.
   intros Hns Hpr. pose proof (pratt_wrapped toks T Hns Hpr) as Hpr'.
-  destruct (pratt_parse_wfd _ _ Hpr) as (Tn & ns & Hp & Ht & Hw & Hu).
-  destruct (pratt_parse_wfd _ _ Hpr') as (Tn' & ns' & Hp' & Ht' & Hw' & Hu').
+  destruct (pratt_parse_wfd _ _ Hpr) as (Tn & ns & Hp & Ht & Hw & HD & Hu).
+  destruct (pratt_parse_wfd _ _ Hpr') as (Tn' & ns' & Hp' & Ht' & Hw' & HD' & Hu').
   exists (nid Tn), ns, (nid Tn'), ns'. split; [exact Hp|]. split; [exact Hp'|].
-  intros init fuel fuel' r r' Hb Hb'.
-  cbn [untok] in Hu'. rewrite untok_shift_rtree, <- Hu in Hu'.
-  destruct Tn' as [i d k|i d k a|i d k a|i d k l0 r0|b i k A]; cbn [erase untok] in Hu'; try discriminate Hu'.
-  injection Hu' as -> HuA. cbn [wfd] in Hw'.
-  assert (Hg : grel lit_all lit_all zlab zlab None false (img (NGroup BRound i k A)) (img Tn)).
-  { cbn [img bdef]. apply grel_group_intro; [reflexivity|]. eapply erase_grel; eassumption. }
+  intros init lit lit' fuel fuel' r r' Hlit Hb Hb'.
+  set (off := fst (trim_tokens toks)) in *. set (off' := fst (trim_tokens (TT_StartGroup :: toks ++ [TT_EndGroup]))) in *.
+  rewrite Hu in Hu'. rewrite shift_shift in Hu'.
+  destruct Tn' as [i d k|i d k x|i d k x|i d k l0 r0|bk i k A]; cbn [erase shift_rtree] in Hu'; try discriminate Hu'.
+  injection Hu' as <- _ HuA. cbn [wfd] in Hw'. cbn [denotes] in HD'. destruct HD' as (n' & _ & _ & _ & _ & _ & _ & _ & DA).
+  assert (Hg : grel lit' lit (fun i => tokl ns' i + off') (fun i => tokl ns i + (off + 1)) None false (img (NGroup BRound i k A)) (img Tn)).
+  { cbn [img bdef]. apply grel_group_intro; [reflexivity|]. eapply erase_grel; try eassumption; [|symmetry; exact HuA].
+    intros j' j E. apply Hlit. unfold src_tok. fold off off'. lia. }
   pose proof (compile_agrees_full_proof _ _ _ _ _ _ _ Ht Hb) as Hc.
   pose proof (compile_agrees_full_proof _ _ _ _ _ _ _ Ht' Hb') as Hc'.
-  destruct (compile_sim init lit_all lit_all zlab zlab _ _ _ _ Hg Hc) as (c' & Hc2 & Hv1 & Hv2).
+  destruct (compile_sim init lit' lit _ _ _ _ _ _ Hg Hc) as (c' & Hc2 & Hv1 & Hv2).
   rewrite Hc' in Hc2. injection Hc2 as <- Hs. cbn [ci cj] in Hv1, Hv2.
-  split; [exact Hv1|]. split; [exact Hv2|exact Hs].
+  split; [|split; [exact Hv2|exact Hs]].
+  unfold src_tok. fold off off'. rewrite Hv1. apply ren_ext. intros j. lia.
 Qed.
